@@ -11,6 +11,11 @@ Three groups:
      IndexRestore wins over every earlier restorer, and the counterexample for rows restored after it;
   C. the cut-point theorem for any deterministic machine and any snapshot format, exact and up to an
      observational equivalence (the shape `cut_commutes` takes once the shared store model exists);
+  E. (round 5) the plain persisted tables CV.SnapG — service-virtual-ips, free-virtual-ips, coordinates, sessions, the five
+     ACL tables, kvs, tombstones, prepared queries, autopilot, feature gates, legacy intentions, CA roots / provider
+     state / config, config entries, federation states, system metadata, peerings, trust bundles, peering secrets —
+     in one ordered map keyed by (table, id): `restore_snapshot_tables`, and the restore-side field audit over the
+     regenerated facts (`decode_type_is_persisted_type`, …);
   D. the shared store model CV.Store: `restore_snapshot_store(_partial/_counterexample)`, `cut_commutes_store`, and
      their reachable forms `snap_wf_reachable_partial`, `restore_snapshot_reachable_partial`,
      `cut_commutes_reachable_partial` — for every log that follows the decidable discipline `SnapDisc` and every cut.
@@ -30,6 +35,7 @@ Pending the shared store model CV.Store (next round) — full-strength statement
   kept as `restorerBeforeFix` with its counterexample (`peering_overwrite_counterexample`).
 -/
 import CV.Proofs.Snap
+import CV.Proofs.SnapG
 import CV.Proofs.StoreSnapCex
 import CV.Proofs.StoreSnapReachCex
 namespace CV.Snap
@@ -423,6 +429,187 @@ example :
   decide
 
 end CV.Snap
+
+/-! ## E. the plain persisted tables (CV.SnapG) and the restore-side field audit -/
+
+namespace CV.SnapG
+open CV CV.Snap CV.Facts.Snap
+
+/-- Well-formed states: the three ordered maps in key order (one row per key), every index row a restorer that runs
+    BEFORE IndexRestore computes is keyed like a row of the original index table (`cover`), and every index write of
+    a restorer that runs AFTER it is dominated by the original row of that key (`dom`). -/
+structure WF (s : State) : Prop where
+  idx   : Sorted idxKey s.index
+  rows  : Sorted gKey s.rows
+  late  : Sorted gKey s.late
+  cover : ∀ r ∈ s.rows, ∀ w ∈ writes (lastIndex s) r, ∃ x ∈ s.index, idxKey x = lc w.1
+  dom   : ∀ r ∈ s.late, ∀ w ∈ writes (lastIndex s) r, ∃ x ∈ s.index, idxKey x = lc w.1 ∧ w.2 ≤ x.value
+
+/-- **Round trip of the 25 plain tables.** For every well-formed state — any number of rows in any of the tables, any
+    keys, any create / modify indexes, any index table — restoring the snapshot gives back exactly the same state:
+    every row with its payload and both indexes, and the whole index table. -/
+theorem restore_snapshot_tables (s : State) (h : WF s) : restore (snapshot s) = s := by
+  rw [restore_snapshot_eq]
+  have h1 : Sorted idxKey (applyWrites (allWrites (lastIndex s) s.rows) []) := applyWrites_sorted _ (sorted_nil _)
+  have h2 : insertAll idxKey (applyWrites (allWrites (lastIndex s) s.rows) []) s.index = s.index := by
+    apply insertAll_cover h1 h.idx
+    intro y hy
+    rcases mem_applyWrites_imp _ hy with hy | ⟨w, hw, e⟩
+    · cases hy
+    · obtain ⟨r, hr, hwr⟩ := List.mem_flatMap.mp hw
+      obtain ⟨x, hx, ex⟩ := h.cover r hr w hwr
+      exact ⟨x, hx, by rw [e, ex]⟩
+  have h3 : applyWrites (allWrites (lastIndex s) s.late) s.index = s.index := by
+    apply applyWrites_noop _ h.idx
+    intro w hw
+    obtain ⟨r, hr, hwr⟩ := List.mem_flatMap.mp hw
+    exact h.dom r hr w hwr
+  simp only [h2, h3, insertAll_nil h.rows, insertAll_nil h.late]
+
+/-- The rows themselves need nothing from the index table: for ANY state whose tables are in key order, every row of
+    every table comes back with its payload and indexes. -/
+theorem table_rows_restored (s : State) (hr : Sorted gKey s.rows) (hl : Sorted gKey s.late) :
+    (restore (snapshot s)).rows = s.rows ∧ (restore (snapshot s)).late = s.late := by
+  rw [restore_snapshot_eq]
+  exact ⟨insertAll_nil hr, insertAll_nil hl⟩
+
+/-- The record stream: rows of the early tables in (table, key) order, then the index table, then the late tables. -/
+theorem stream_order_tables (s : State) :
+    (snapshot s).recs = s.rows.map Rec.row ++ s.index.map Rec.index ++ s.late.map Rec.late := by
+  simp [snapshot, Format.snapshot, fmt]
+
+/-- `cover` is needed, and shows the index writes of `Restore.ServiceVirtualIP`: a virtual-IP row of a PEERED service in
+    a state whose index table lacks "service-virtual-ips.imported" — restore adds that row (value = the row's
+    ModifyIndex). Such a state is not produced online (`assignServiceVirtualIP` writes the same three rows). -/
+theorem vip_imported_index_needed :
+    let s : State := { index := [⟨strB "service-virtual-ips", 7⟩], rows := [⟨0, [119], "vip", 7, 7, true⟩], late := [] }
+    (restore (snapshot s)).index = [⟨strB "service-virtual-ips", 7⟩, ⟨strB "service-virtual-ips.imported", 7⟩] := by
+  decide
+
+/-- … and of `Restore.Coordinates`: it writes "coordinates" ← header LastIndex (the index of ANOTHER table's last
+    write), which only the verbatim index row hides: without that row the restored server reports 9 for a table whose
+    rows carry no index at all. -/
+theorem coordinates_index_is_header :
+    let s : State := { index := [⟨strB "kvs", 9⟩], rows := [⟨2, [110, 49], "coord", 0, 0, false⟩], late := [] }
+    (restore (snapshot s)).index = [⟨strB "coordinates", 9⟩, ⟨strB "kvs", 9⟩] := by
+  decide
+
+/-- `dom` is needed for the tables persisted after the index table. -/
+theorem late_dominance_needed :
+    let s : State := { index := [⟨strB "peering", 3⟩], rows := [], late := [⟨22, [1], "p", 3, 7, false⟩] }
+    (restore (snapshot s)).index = [⟨strB "peering", 7⟩] := by
+  decide
+
+/-- Reviewed: memdb table of CV.SnapG → its persister. The sequence of persisters (in table order) is a sub-sequence of
+    the real persist order, the early / late split is the position of `persistIndex`, and every table is a persisted
+    schema table — so table numbers really are stream order. A persister moved in `persistCE` breaks this. -/
+theorem tables_follow_persist_order :
+    (tables.map fun d => ((persistedTables.find? (·.1 = d.name)).map (·.2.1)).getD "?").eraseDups.Sublist persistOrder ∧
+    (∀ d ∈ tables, ∃ e ∈ persistedTables, e.1 = d.name ∧ (d.late = decide (pos "persistIndex" < pos e.2.1))) ∧
+    (tables.map (·.name)).Nodup := by
+  decide
+
+/-- Every persisted schema table is either one of the plain tables of CV.SnapG, or the index table itself, or a catalog
+    table restored through `Restore.Registration` (store model CV.Store.Snap). -/
+theorem persisted_tables_all_modelled :
+    ∀ e ∈ persistedTables, e.1 ∈ tables.map (·.name) ∨ e.1 ∈ ["index", "nodes", "services", "checks"] := by
+  decide
+
+/-- non-vacuity: a state with rows in eleven tables (a peered virtual IP, the counter, a coordinate, a token, a policy,
+    a key, a tombstone, the autopilot singleton, two config entries, a federation state, a metadata entry; a peering, a
+    trust bundle and a secrets row after the index table) and index rows far apart -/
+def sampleTables : State :=
+  { index := [⟨strB "acl-policies", 12⟩, ⟨strB "acl-tokens", 40⟩, ⟨strB "config-entries", 91⟩, ⟨strB "coordinates", 33⟩,
+              ⟨strB "federation-states", 5⟩, ⟨strB "kvs", 77⟩, ⟨strB "nodes", 30⟩, ⟨strB "peering", 60⟩,
+              ⟨strB "peering-trust-bundles", 61⟩, ⟨strB "service-virtual-ips", 31⟩, ⟨strB "service-virtual-ips.imported", 31⟩,
+              ⟨strB "system-metadata", 2⟩, ⟨strB "tombstones", 78⟩]
+    rows := [⟨0, [100, 98], "vip-db", 31, 31, true⟩, ⟨0, [119], "vip-web", 8, 9, false⟩, ⟨1, [1], "counter", 0, 0, false⟩,
+             ⟨2, [110, 49], "coord", 0, 0, false⟩, ⟨4, [1], "tok", 10, 40, false⟩, ⟨5, [2], "pol", 12, 12, false⟩,
+             ⟨9, [97], "kv", 3, 77, false⟩, ⟨10, [98], "tomb", 78, 78, false⟩, ⟨12, [], "ap", 4, 6, false⟩,
+             ⟨19, [1, 0, 119], "ce1", 20, 91, false⟩, ⟨19, [2, 0, 119], "ce2", 21, 21, false⟩, ⟨20, [100, 99, 50], "fs", 5, 5, false⟩,
+             ⟨21, [107], "sm", 2, 2, false⟩]
+    late := [⟨22, [1], "peer", 50, 60, false⟩, ⟨23, [112], "tb", 61, 61, false⟩, ⟨24, [1], "sec", 0, 0, false⟩] }
+
+theorem sampleTables_wf : WF sampleTables where
+  idx := by decide
+  rows := by decide
+  late := by decide
+  cover := by decide
+  dom := by decide
+
+example : restore (snapshot sampleTables) = sampleTables ∧ (snapshot sampleTables).last = 91 := by decide
+
+/-- ANY deterministic machine over these tables that keeps `WF` invariant commutes with snapshot + restore at every
+    cut of every log. -/
+theorem cut_commutes_tables {C Res : Type} (m : Machine State C Res) (init : State) (log : List C) (k : Nat)
+    (hinv : ∀ pre, WF (m.run init pre).1) :
+    m.run (restore (snapshot (m.run init (log.take k)).1)) (log.drop k) = m.run (m.run init (log.take k)).1 (log.drop k) := by
+  rw [restore_snapshot_tables _ (hinv (log.take k))]
+
+/-! ### restore-side field audit (regenerated facts: what the persisters encode, what the restorers decode and build) -/
+
+/-- Reviewed: what the persister's expression denotes, where the fact is not already a type name. -/
+def persistedTypeOf : List (String × String) :=
+  [ ("call n.ToRegisterRequest", "structs.RegisterRequest"),
+    ("elem call s.state.PreparedQueries", "structs.PreparedQuery"),
+    ("call s.state.Autopilot", "structs.AutopilotConfig"),
+    ("call s.state.FeatureGates", "structs.FeatureGateSnapshot"),
+    ("elem call s.state.CARoots", "structs.CARoot"),
+    ("call s.state.CAConfig", "structs.CAConfiguration"),
+    ("elem call s.state.CAProviderState", "structs.CAConsulProviderState"),
+    ("elem call s.state.LegacyIntentions", "structs.Intention"),
+    ("elem call s.state.SystemMetadataEntries", "structs.SystemMetadataEntry") ]
+
+def typeOfPersisted (d : String) : String := ((persistedTypeOf.find? (·.1 = d)).map (·.2)).getD d
+
+/-- Every restorer decodes the very type its persister encodes (msgpack / protobuf drop fields the target type does
+    not have, silently); the one hand-written decode struct (`restoreServiceVirtualIP`) is audited field by field below. -/
+theorem decode_type_is_persisted_type :
+    ∀ p ∈ persistedTypes, ∀ r ∈ restorers, r.1 = p.1 → ∀ d ∈ restorerDecodes, d.1 = r.2 →
+      typeOfPersisted p.2 = d.2 ∨ (d.2 = "struct" ∧ p.2 = "state.ServiceVirtualIP") := by
+  decide
+
+/-- The hand-written decode struct of `restoreServiceVirtualIP` lists every field of `state.ServiceVirtualIP` (it lacked
+    `ManualIPs` until the repair acd888a: manually assigned virtual IPs were dropped by restore). -/
+theorem vip_decode_struct_lists_every_field :
+    ∀ f ∈ structFields, f.1 = "state.ServiceVirtualIP" → ("restoreServiceVirtualIP", f.2) ∈ restorerAnonFields := by
+  decide
+
+/-- Rows a restorer builds by hand (`state.Tombstone`, `state.ServiceVirtualIP`) get every field of their type (the CE
+    `EnterpriseMeta` is an empty struct). -/
+theorem hand_built_rows_complete :
+    ∀ f ∈ structFields, f.2 ≠ "EnterpriseMeta" →
+      (f.1 = "state.Tombstone" → ("restoreTombstone", f.1, f.2) ∈ restorerAssigns) ∧
+      (f.1 = "state.ServiceVirtualIP" → ("restoreServiceVirtualIP", f.1, f.2) ∈ restorerAssigns) := by
+  decide
+
+/-- The conversions on the persist / restore path of the catalog read every field of their receiver:
+    `Node.ToRegisterRequest` (all but the CE-empty Partition; it dropped Locality until the repair 48c4e1a),
+    `ServiceNode.ToNodeService` (every Service* field, peer, meta, both indexes; node-level columns belong to the node
+    record), `NodeService.ToServiceNode` (all but the agent-local LocallyRegisteredAsSidecar). -/
+theorem conversions_read_every_field :
+    (∀ f ∈ structFields, (f.1 = "structs.Node" ∧ f.2 ≠ "Partition") → ("Node.ToRegisterRequest", f.2) ∈ conversionReads) ∧
+    (∀ f ∈ structFields, (f.1 = "structs.ServiceNode" ∧
+        (["ID", "Node", "Address", "Datacenter", "TaggedAddresses", "NodeMeta", "RaftIndex"].contains f.2) = false) →
+        ("ServiceNode.ToNodeService", f.2) ∈ conversionReads) ∧
+    (∀ f ∈ structFields, (f.1 = "structs.NodeService" ∧ (["LocallyRegisteredAsSidecar", "RaftIndex"].contains f.2) = false) →
+        ("NodeService.ToServiceNode", f.2) ∈ conversionReads) := by
+  refine ⟨by decide, by decide, by decide⟩
+
+/-- … and both conversions between the two service shapes carry the create and the modify index. -/
+theorem conversions_carry_indexes :
+    ("ServiceNode.ToNodeService", "CreateIndex") ∈ conversionReads ∧ ("ServiceNode.ToNodeService", "ModifyIndex") ∈ conversionReads ∧
+    ("NodeService.ToServiceNode", "CreateIndex") ∈ conversionReads ∧ ("NodeService.ToServiceNode", "ModifyIndex") ∈ conversionReads := by
+  decide
+
+/-- `ensureRegistrationTxn` (what `Restore.Registration` runs) builds the node row with every field of `structs.Node`. -/
+theorem registration_builds_every_node_field :
+    (∀ f ∈ structFields, (f.1 = "structs.Node" ∧ f.2 ≠ "RaftIndex") → ("ensureRegistrationTxn", f.1, f.2) ∈ registrationAssigns) ∧
+    ("ensureRegistrationTxn", "structs.Node", "CreateIndex") ∈ registrationAssigns ∧
+    ("ensureRegistrationTxn", "structs.Node", "ModifyIndex") ∈ registrationAssigns := by
+  decide
+
+end CV.SnapG
 
 /-! ## D. the shared store model (CV.Store): snapshot / restore of the real tables
 
